@@ -734,10 +734,11 @@ def initialize_X_and_G(
             f"The size of correction vector ({n}) does"
             f" not match the size of x ({x.size})!"
         )
-    # restore the past X and G
+    # restore the past X and G, in chronological order: the i-th past point is
+    # the current one minus the sum of all differences from the i-th on.
     for x, g in zip(
-        checkpoint.x - np.cumsum(checkpoint.hess_inv.sk, axis=0),
-        checkpoint.jac - np.cumsum(checkpoint.hess_inv.yk, axis=0),
+        checkpoint.x - np.cumsum(checkpoint.hess_inv.sk[::-1], axis=0)[::-1],
+        checkpoint.jac - np.cumsum(checkpoint.hess_inv.yk[::-1], axis=0)[::-1],
     ):
         if len(X) > maxcor:
             X.popleft()
